@@ -124,9 +124,12 @@ func (i *Interpreter) evaluateAsyncExpr(expr AsyncExpr, env *Environment) (inter
 	// Create a new Future to represent the pending result
 	future := NewFuture()
 
-	// Create a child environment for the async block
-	// This captures the current scope for use in the goroutine
-	asyncEnv := NewChildEnvironment(env)
+	// The block runs on a snapshot of the scopes visible here, as compiled
+	// blocks do. Running it on a child of env shared the parent's maps between
+	// two goroutines: a parent that went on declaring or assigning variables
+	// while the block read them was a data race and, in the end, a fatal
+	// "concurrent map read and map write".
+	asyncEnv := NewChildEnvironment(env.Snapshot())
 
 	// Execute the async block in a separate goroutine
 	go func() {
